@@ -8,17 +8,23 @@ use serde::{Deserialize, Serialize};
 #[derive(Serialize, Deserialize, Clone, Debug)]
 pub enum Case {
     Pt(crate::pt::Case),
+    Trk(crate::trk::Case),
+    Val(crate::val::Case),
 }
 
 impl Case {
     pub fn hash_seed(&self) -> u64 {
         match self {
             Case::Pt(c) => c.hash_seed,
+            Case::Trk(c) => c.hash_seed,
+            Case::Val(c) => c.hash_seed,
         }
     }
     pub fn size(&self) -> usize {
         match self {
+            Case::Val(c) => c.links.len() + if c.only.is_some() { 0 } else { 1000 },
             Case::Pt(c) => c.ops.len() + c.locos.len(),
+            Case::Trk(c) => c.ops.len() + c.route.len() + c.links.iter().map(|l| l.elevs.len() + l.headings.len() + l.cat_power_limits.len() + l.speed_set.as_ref().map(|s| s.speed_limits.len() + s.speed_params.len()).unwrap_or(0)).sum::<usize>(),
         }
     }
 }
@@ -39,7 +45,23 @@ const PT_REAL: &[&str] = &["altrios_core::consist::{Consist, Locomotive, FuelCon
 const PT_STUB: &[&str] = &["clock: the simulator issues every dt", "storage: in-memory byte buffers behind a simulated Read (short reads, EINTR)", "pyo3 layer: not run"];
 const PT_RULE: &str = "a case = generated consist/locomotive parameters + seeded op list (ticks with closed-loop demand policy, crash/restore, interval changes, over-limit requests); distinct = distinct hash of (scenario class, fault kinds fired, reach probes hit); non-trivial = at least 5 accepted ticks";
 
+const TRK_REAL: &[&str] = &["altrios_core::track::{PathTpc::extend/finish, insert_speed, TrainParams::speed_set_applies, Link} (real code)", "SerdeAPI save/load of the half-built PathTpc (real code)"];
+const TRK_STUB: &[&str] = &["storage: in-memory byte buffers behind a simulated Read", "train: TrainParams only (no train model in this world)"];
+const TRK_RULE: &str = "a case = generated network (corridor with sidings, flips, 0-6 restrictions per link on a coarse grid incl. nested/abutting/duplicate-bound/zero-length, head/tail-end sets, gated sets, per-train-type sets, 2-6 elevation points, headings incl. wrap-around, catenary) + contiguous route + train + seeded history of extend calls (partition, empty extensions, reloads, refused extensions); distinct = distinct hash of (scenario class, fault kinds fired, probes hit); non-trivial = route of >= 2 links or profile of >= 3 points";
+
+const VAL_REAL: &[&str] = &["altrios_core::track::{Network, Link}::validate and every ObjState::validate below it (real code)", "Network::from_yaml / from_json / from_reader / from_file incl. legacy-layout fallback (real code, real files in a scratch directory)"];
+const VAL_STUB: &[&str] = &["reader: simulated Read with short reads, EINTR, hard error and early EOF at seeded bytes"];
+const VAL_RULE: &str = "a case = one generated valid network; every mutation kind (57 rule-breaking, 10 rule-keeping, 2 non-finite-extent) is applied at every link where it is expressible (enumerated), each judged by validate() and a 6 % seeded sample also by the yaml/json/reader/file/legacy-file load paths; distinct = distinct base networks (hash of the link data); non-trivial = network with >= 2 real links";
+
 pub const PROPS: &[PropInfo] = &[
+    PropInfo { id: "C16", world: "val", level: "fault_enumeration", quick_runs: 1500, thorough_runs: 100_000, rule: VAL_RULE, real: VAL_REAL, stub: VAL_STUB,
+        assumptions: &["reading fixed in DESIGN C16: speed sections may overlap and nest, catenary sections may not overlap", "infinite lengths / speeds / powers are outside what the rules decide: only 'no panic' is required for them", "lockout declarations are not part of the stated rules and are not mutated", "bincode is not an advertised network load path for this property (C17 covers it)"] },
+    PropInfo { id: "C02", world: "trk", level: "exploration", quick_runs: 200_000, thorough_runs: 3_000_000, rule: TRK_RULE, real: TRK_REAL, stub: TRK_STUB,
+        assumptions: &["positive speeds only (negative 'reverse' limits are outside the domain)", "exact comparison: the code only copies and compares speeds", "PathTpc::clear/reindex/recalc_speeds are not reachable from the simulations and not exercised"] },
+    PropInfo { id: "C13", world: "trk", level: "exploration", quick_runs: 200_000, thorough_runs: 3_000_000, rule: TRK_RULE, real: TRK_REAL, stub: TRK_STUB,
+        assumptions: &["same input space as C02", "a restriction covers [start, end) (+ train length for tail-end sets)"] },
+    PropInfo { id: "C06", world: "trk", level: "exploration", quick_runs: 200_000, thorough_runs: 3_000_000, rule: TRK_RULE, real: TRK_REAL, stub: TRK_STUB,
+        assumptions: &["reference comparisons 1e-9 relative; partition-vs-one-call comparison bit-exact (PartialEq)", "nothing is promised about a path object after a refused extension (it is discarded)"] },
     PropInfo { id: "C01", world: "pt", level: "exploration", quick_runs: 20_000, thorough_runs: 1_000_000, rule: PT_RULE, real: PT_REAL, stub: PT_STUB,
         assumptions: &["engine on (engine-off steps belong to C08)", "efficiency maps, ratings, battery maps, SOC inside the generator domain (DESIGN 2.3)", "tolerance 1e-9 relative to the largest term (measured residual of the unchanged tree ~1e-14)"] },
     PropInfo { id: "C08", world: "pt", level: "exploration", quick_runs: 20_000, thorough_runs: 1_000_000, rule: PT_RULE, real: PT_REAL, stub: PT_STUB,
@@ -59,6 +81,8 @@ pub fn info(prop: &str) -> Option<&'static PropInfo> {
 pub fn generate(prop: &str, rng: &mut Rng, thorough: bool) -> Case {
     match info(prop).map(|i| i.world) {
         Some("pt") => Case::Pt(crate::pt::generate(rng, prop, thorough)),
+        Some("trk") => Case::Trk(crate::trk::generate(rng, prop, thorough)),
+        Some("val") => Case::Val(crate::val::generate(rng, prop, thorough)),
         _ => panic!("no world for property {prop}"),
     }
 }
@@ -66,12 +90,16 @@ pub fn generate(prop: &str, rng: &mut Rng, thorough: bool) -> Case {
 pub fn execute(case: &Case, ctx: &mut Ctx) {
     match case {
         Case::Pt(c) => crate::pt::execute(c, ctx),
+        Case::Trk(c) => crate::trk::execute(c, ctx),
+        Case::Val(c) => crate::val::execute(c, ctx),
     }
 }
 
-pub fn shrink(case: &Case) -> Vec<Case> {
+pub fn shrink(case: &Case, v: &Violation) -> Vec<Case> {
     match case {
+        Case::Val(c) => crate::val::shrink(c, v).into_iter().map(Case::Val).collect(),
         Case::Pt(c) => crate::pt::shrink(c).into_iter().map(Case::Pt).collect(),
+        Case::Trk(c) => crate::trk::shrink(c).into_iter().map(Case::Trk).collect(),
     }
 }
 
@@ -83,6 +111,15 @@ pub fn panic_property(case: &Case, _layer: &str, location: &str) -> Option<&'sta
                 Some("C10")
             } else {
                 None
+            }
+        }
+        // building a path must never panic: speed-profile code -> C13, everything else in this world -> C06
+        Case::Val(_) => Some("C16"),
+        Case::Trk(_) => {
+            if location.contains("speed_point.rs") || location.contains("speed_limit.rs") {
+                Some("C13")
+            } else {
+                Some("C06")
             }
         }
     }
